@@ -484,6 +484,26 @@ def step (st : St) : List String → St × String
                s!"fits={stored.all fun x => x.den != 1 || c.fits x.num} stored={showRatList stored} back={showRatList (stored.map c.load)}")
         | _, _ => (st, s!"ok read={d'.str} tag={d.tag} holds={vs.all fun v => d.kind == .float || d.kind == .complex || (v.den == 1 && d.holds v.num)}")
     | _, _, _ => (st, "bad-op")
+  | ["spstore", fmt, variant, t] =>
+    match parseTree? t with
+    | some t =>
+      match Csc.fromDict t with
+      | .ok raw =>
+        let store? : Option SpStore :=
+          if fmt == "csc" then some (.csc raw) else if fmt == "csr" then some (.csr raw)
+          else if fmt == "other" then some .noIndices else none
+        match store?, variant with
+        | some store, "new" =>
+          match store.toCsc with
+          | some c => (st, s!"ok wf={c.wellFormed} dense={showArr (cscToDense c)} csrdense={showArr (match store with | .csr r => csrToDense r | _ => cscToDense c)} tree=" ++ showTree c.toDict)
+          | none => (st, "ok unmodelled")
+        | some store, "old" =>
+          match store.toDictOld with
+          | .ok tr => (st, s!"ok wf={match Csc.fromDict tr with | .ok c => c.wellFormed | .error _ => false} tree=" ++ showTree tr)
+          | .error e => (st, "err " ++ showErr e)
+        | _, _ => (st, "bad-op")
+      | .error _ => (st, "bad-op")
+    | none => (st, "bad-op")
   | ["guess", name] => (st, "ok " ++ fmtShown (guessFormat name.toList))
   | ["format", name, fmt] =>
     match formatOf name.toList (parseFmtArg fmt) with
